@@ -21,11 +21,12 @@ def monitor(am, engine, cx, events, snaps):
     if specials:
         # the watchdog fired: start()/send() did not return or the async loop never drained
         sig = None
-        raises = any(a[0] == "raise" for n in am.nodes for a in n.entry + n.exit) or \
-            any(a[0] == "raise" for t in am.all_trans() for a in t.actions)
-        if engine == "async" and has_done_cycle(am) and not raises:
-            sig = dict(kind="hang", cause="async-done-state-chain-unbounded")
-        elif engine == "async" and raises:
+        # fan-out needs at least two raise actions in the machine (one macrostep queueing more than one event)
+        raises = sum(1 for n in am.nodes for a in n.entry + n.exit if a[0] == "raise") + \
+            sum(1 for t in am.all_trans() for a in t.actions if a[0] == "raise")
+        # crafted loop machines declare their fan-out; random ones may multiply one raise through an always loop
+        fanout = getattr(am, "fanout", None)
+        if engine == "async" and ((fanout is None and raises >= 1) or (fanout is not None and fanout >= 2)):
             sig = dict(kind="hang", cause="async-raise-fanout-unbounded")
         out.append(("%s engine: a macrostep did not terminate within the watchdog (%s)" % (engine, specials[0]["special"]), sig))
         return out
@@ -95,6 +96,12 @@ def loop_machine(rng, kind, k, mi):
     elif kind == "raise_cycle":
         nodes[idle].on.append(("GO", [Trans(next(tid), idle, "GO", None, actions=[("mark", 10)] + [("raise", "GO", 1)] * k)]))
         am = AM(nodes, max_iter=mi)
+    elif kind == "always_raise_cycle":
+        # a --GO--> b ; b --always--> a raising GO again: a cycle through BOTH always and raise (one raise action)
+        b = add(0, "b", "atomic")
+        nodes[idle].on.append(("GO", [Trans(next(tid), idle, "GO", b, actions=[("mark", 10)])]))
+        nodes[b].on.append(("", [Trans(next(tid), b, "", idle, actions=[("raise", "GO", 1)])]))
+        am = AM(nodes, max_iter=mi)
     elif kind == "done_cycle":
         w = add(0, "w", "compound")
         f = add(w, "f", "final")
@@ -110,6 +117,7 @@ def loop_machine(rng, kind, k, mi):
         am = AM(nodes, max_iter=mi)
     am.probe_mark = PROBE
     am.chain_len = k
+    am.fanout = k if kind == "raise_cycle" else 1
     return am
 
 
@@ -117,9 +125,9 @@ def family(rng, tier):
     cases = []
     i = 0
     for mi in (3, 5):
-        for kind in ("always_chain", "always_cycle", "raise_chain", "raise_cycle", "done_cycle", "start_cycle"):
+        for kind in ("always_chain", "always_cycle", "raise_chain", "raise_cycle", "always_raise_cycle", "done_cycle", "start_cycle"):
             ks = {"always_chain": [mi - 1, mi, mi + 1], "always_cycle": [1, 2, 3], "raise_chain": [mi - 1, mi, mi + 1, 2 * mi + 2],
-                  "raise_cycle": [1, 2], "done_cycle": [1], "start_cycle": [2]}[kind]
+                  "raise_cycle": [1, 2], "always_raise_cycle": [1], "done_cycle": [1], "start_cycle": [2]}[kind]
             for k in ks:
                 for engine in ("sync", "async"):
                     am = loop_machine(rng, kind, k, mi)
